@@ -95,6 +95,8 @@ func (f *zFollower) Destroy() {
 	os.RemoveAll(f.dir)
 }
 
+func (f *zFollower) Chain() chain.Chain { return f.ch }
+
 func (f *zFollower) Height() uint64 { return f.ch.GetFrontierMomentumStore().Identifier().Height }
 
 // StateDigest is a digest of the byte-exact frontier key space (every key and value of the ledger database).
